@@ -476,22 +476,24 @@ def raw_mapping(corr: Corr, ctx, rng):
         tr = MemTransport("in", "out/x")
         for l in lines:
             del tr.published[:]
-            try:
-                await tr.write(l)
+            r = await guarded(tr.write(l))         # never raises, never hangs
+            if r[0] == "ok":
                 got = ("ok", tr.published[-1]) if len(tr.published) == 1 else ("published", len(tr.published))
-            except ValueError:
+            elif r == ("foreign", "ValueError"):
                 got = ("valueerror",)
-            except Exception as e:  # noqa: BLE001
-                got = ("foreign", type(e).__name__)
+            else:
+                got = (r[0], r[1])
             impl.append(got)
             ops.append(f"topic {enc('out/x')} {enc(l)}")
             corr.count(f"raw-line:{got[0]}")
         for tpc, pl in zip(topics, payloads):
             try:
                 tr._receive(tpc, pl)  # noqa: SLF001  documented hook
-                timpl.append(await asyncio.wait_for(tr.read(), 5))
             except Exception as e:  # noqa: BLE001
                 timpl.append(f"<raised {type(e).__name__}>")
+            else:
+                r = await guarded(tr.read())       # a message that was not queued shows as a read that stays pending
+                timpl.append(r[1] if r[0] == "ok" else (f"<raised {r[1]}>" if r[1] else "<nothing to read>"))
             ops.append(f"line {enc(tpc)} {enc(pl)}")
             corr.count("raw-topic:levels<5" if tpc.count("/") < 4 else "raw-topic:levels>=5")
 
